@@ -296,6 +296,9 @@ const (
 
 // fieldValue classifies a (generated, unambiguous) field value.
 func fieldValue(s string) (k fkind, num float64, data string) {
+	if u, ok := unquoteField(s); ok {
+		return fkString, 0, u // a string whose text looks like another kind is kept in its quoted form
+	}
 	if f, err := strconv.ParseFloat(s, 64); err == nil {
 		return fkNumber, f, s
 	}
@@ -330,17 +333,57 @@ func fieldEquals(a, b string) bool {
 
 func fieldIsZero(s string) bool { return s == "0" }
 
+// unquoteField: a JSON string literal -> the string it denotes.
+func unquoteField(s string) (string, bool) {
+	if len(s) >= 2 && s[0] == '"' && s[len(s)-1] == '"' {
+		var u string
+		if json.Unmarshal([]byte(s), &u) == nil {
+			return u, true
+		}
+	}
+	return "", false
+}
+
+// canonField is the form in which a field value of the given kind and text is stored and
+// compared: the text itself, except for a string whose text would read as another kind, which
+// is JSON-quoted.
+func canonField(kind fkind, text string) string {
+	if kind == fkString {
+		if k, _, _ := fieldValue(text); k != fkString {
+			b, _ := json.Marshal(text)
+			return string(b)
+		}
+	}
+	return text
+}
+
+// fieldData is what a reply shows of a stored field value (strings without their quotes).
+func fieldData(v string) string {
+	if u, ok := unquoteField(v); ok {
+		return u
+	}
+	return v
+}
+
+// fieldsExpectData is fieldsExpect over the values as replies show them.
+func fieldsExpectData(fields map[string]string) string {
+	m := make(map[string]string, len(fields))
+	for k, v := range fields {
+		m[k] = fieldData(v)
+	}
+	return fieldsExpect(m)
+}
+
 func isReservedField(n string) bool { return n == "z" || n == "lat" || n == "lon" }
 
 // setField applies one FIELD assignment; reports whether the list changed.
 func setField(fields map[string]string, name, val string) bool {
 	// a JSON string literal is the string it denotes (this is how a rewritten log spells
 	// string fields)
-	if len(val) >= 2 && val[0] == '"' && val[len(val)-1] == '"' {
-		var u string
-		if json.Unmarshal([]byte(val), &u) == nil {
-			val = u
-		}
+	if u, ok := unquoteField(val); ok {
+		// ... unless its text would read as a number, a boolean, null or a JSON document: such a
+		// string stays a string (its kind is part of the value), and is kept here in quoted form
+		val = canonField(fkString, u)
 	}
 	prev, ok := fields[name]
 	if !ok {
@@ -794,7 +837,7 @@ func (m *Model) apply(args []string, now time.Duration) mResult {
 		if !ok {
 			v = "0"
 		}
-		return res(expExact(strconv.Quote(v)), false)
+		return res(expExact(strconv.Quote(fieldData(v))), false)
 	case "exists":
 		if len(a) != 2 {
 			return mResult{undef: true}
@@ -967,7 +1010,7 @@ func (m *Model) applyGet(a []string) mResult {
 	}
 	wantFields := ""
 	if withfields && len(o.fields) > 0 {
-		wantFields = fieldsExpect(o.fields)
+		wantFields = fieldsExpectData(o.fields)
 	}
 	checkMain := func(v rv) error {
 		switch out {
@@ -1131,7 +1174,7 @@ func (m *Model) applyScan(a []string) mResult {
 			}
 			want := ""
 			if len(o.fields) > 0 {
-				want = fieldsExpect(o.fields)
+				want = fieldsExpectData(o.fields)
 			}
 			if got != want {
 				return fmt.Errorf("scan item %q fields: got %s want %s", ids[i], got, want)
